@@ -47,6 +47,10 @@ use vh::util::{read_ndjson, repo_fonts, NdWriter};
 #[allow(dead_code)]
 #[path = "c09_written/brotli.rs"]
 mod brotli;
+#[path = "c09_written/cffb.rs"]
+mod cffb;
+#[path = "c09_written/derive.rs"]
+mod derive;
 #[allow(dead_code)]
 #[path = "c09_written/enc.rs"]
 mod enc;
@@ -195,6 +199,11 @@ struct SrcFacts {
     lsb_clean: bool,
     composites: Vec<u16>,
     layouts: Vec<glyphs::Layout>,
+    /// the derived-maximum fields of the source and what they are derived from (derive.rs)
+    derived: Vec<derive::Measured>,
+    /// the source's own vhea / vmtx / maxp and post 2.0 / maxp agree (so a copy can be held to it)
+    vmtx_ok: bool,
+    post_ok: bool,
 }
 
 fn comp_features(l: &glyphs::Layout, f: &mut BTreeSet<String>) {
@@ -270,12 +279,17 @@ fn measure(get: &dyn Fn(&str) -> Option<Vec<u8>>) -> SrcFacts {
             s.layouts = w.layouts;
         }
     }
+    s.derived = derive::measure(get, if s.kind == "glyf" && !s.layouts.is_empty() { Some(&s.layouts) } else { None });
+    let c = derive::counts(get);
+    let (nvm, vlen, pn) = (c["nVM"].as_i64().unwrap_or(-1), c["vmtxLen"].as_i64().unwrap_or(-1), c["postNumGlyphs"].as_i64().unwrap_or(-1));
+    s.vmtx_ok = nvm >= 0 && nvm <= n as i64 && vlen >= 4 * nvm + 2 * (n as i64 - nvm);
+    s.post_ok = pn == n as i64;
     s
 }
 
 /// Cross-table facts of a table set: vh::proj::cross_facts + one layout class per distinct glyph
 /// record shape + the lsb / xMin relation that head.flags bit 1 announces.
-fn cross_of(get: &dyn Fn(&str) -> Option<Vec<u8>>, built: (bool, bool, bool), src_lsb_clean: bool) -> (Value, Vec<glyphs::Layout>) {
+fn cross_of(get: &dyn Fn(&str) -> Option<Vec<u8>>, built: (bool, bool, bool), src_lsb_clean: bool, op: &str, src: Option<&SrcFacts>) -> (Value, Vec<glyphs::Layout>) {
     let mut x = cross_facts(get);
     let n = x["numGlyphs"].as_i64().unwrap_or(-1);
     let nhm = x["nHM"].as_i64().unwrap_or(-1);
@@ -304,6 +318,18 @@ fn cross_of(get: &dyn Fn(&str) -> Option<Vec<u8>>, built: (bool, bool, bool), sr
     x["srcLsbClean"] = json!(src_lsb_clean);
     x["built"] = json!({"hmtx": built.0, "loca": built.1, "glyf": built.2});
     x["reload"] = no_reload();
+    // derived maxima / minima against what they are derived from, on the output and on the source
+    x["op"] = json!(op);
+    let d = derive::measure(get, if walked { Some(&layouts) } else { None });
+    x["derived"] = derive::to_json(&d, src.map(|s| s.derived.as_slice()));
+    x["counts"] = derive::counts(get);
+    x["counts"]["srcVmtxOk"] = json!(src.map(|s| s.vmtx_ok).unwrap_or(false));
+    x["counts"]["srcPostOk"] = json!(src.map(|s| s.post_ok).unwrap_or(false));
+    // the structure of the CFF table, followed by the independent reader
+    x["cffw"] = match get("CFF ") {
+        Some(c) => cffb::walk_cff(&c).facts,
+        None => cffb::no_cff(),
+    };
     (x, layouts)
 }
 
@@ -344,7 +370,7 @@ impl Rec {
                 let get = sfnt_getter(bytes);
                 // subset copies glyph records it does not have to renumber; instance re-serialises all
                 let lsb_rel = op == "subset" && src.map(|s| s.lsb_clean).unwrap_or(false);
-                let (mut x, layouts) = cross_of(&get, (built, built, op == "instance"), lsb_rel);
+                let (mut x, layouts) = cross_of(&get, (built, built, op == "instance"), lsb_rel, op, src);
                 let can = ["maxp", "hhea", "hmtx", "head"].iter().all(|t| get(t).is_some());
                 if reload && can {
                     x["reload"] = reload_sfnt(bytes);
@@ -378,6 +404,27 @@ impl Rec {
         }
         if x["has"]["cff"] == json!(true) {
             f.insert("out:cff".into());
+            f.insert(format!("out:cff-charset:{}", x["cffw"]["charset"].as_str().unwrap_or("?")));
+            if x["cffw"]["fdCount"].as_i64().unwrap_or(-1) >= 0 {
+                f.insert("out:cff-cid".into());
+            }
+            for i in x["cffw"]["indexes"].as_array().map(|a| a.as_slice()).unwrap_or(&[]) {
+                let dl = i["dataLen"].as_i64().unwrap_or(-1);
+                if [254, 255, 256, 65534, 65535, 65536].contains(&dl) {
+                    let nm = i["name"].as_str().unwrap_or("?").trim_end_matches(|c: char| c.is_ascii_digit());
+                    f.insert(format!("out:cff-index.{}.data={}", nm, dl));
+                }
+            }
+        }
+        for d in x["derived"].as_array().map(|a| a.as_slice()).unwrap_or(&[]) {
+            if d["has"] == json!(true) {
+                let nm = d["name"].as_str().unwrap_or("?");
+                f.insert(format!("derived:{}", nm));
+                if d["srcHas"] == json!(true) {
+                    let (o, sm) = (d["measured"].as_i64().unwrap_or(0), d["srcMeasured"].as_i64().unwrap_or(0));
+                    f.insert(format!("derived:{}:{}", nm, if o < sm { "smaller-than-source" } else if o > sm { "larger-than-source" } else { "as-source" }));
+                }
+            }
         }
         if let Some(s) = src {
             f.insert(format!("src:{}", s.kind));
@@ -482,7 +529,7 @@ fn do_subset(rec: &mut Rec, case: &str, name: &str, provider: &impl FontTablePro
                         _ => None,
                     }
                 };
-                let (mut x, _) = cross_of(&get, (false, false, false), false);
+                let (mut x, _) = cross_of(&get, (false, false, false), false, "prince-cff", None);
                 // advances cannot be asked of a bare CFF table: outlines only
                 x["reload"] = reload_value(guarded(|| -> Result<(i64, i64), String> {
                     let mut cff = ReadScope::new(&bytes).read::<CFF<'_>>().map_err(|e| format!("{:?}", e))?;
@@ -610,7 +657,7 @@ fn do_woff2(rec: &mut Rec, case: &str, name: &str, tables: &[(u32, Vec<u8>)], hm
         Outcome::Returned(Ok(tm)) => {
             let get = |t: &str| tm.get(&tag_u32(t)).cloned();
             let tr = info.glyf_transformed;
-            let (mut x, _) = cross_of(&get, (info.hmtx_flags != 0, tr, tr), tr && src.lsb_clean);
+            let (mut x, _) = cross_of(&get, (info.hmtx_flags != 0, tr, tr), tr && src.lsb_clean, "woff2", Some(src));
             let prov = MapProvider { tables: tm.clone() };
             x["reload"] = reload_value(guarded(|| reload_provider(prov.clone())));
             let res = W2Result {
@@ -768,6 +815,125 @@ fn record_synth(rec: &mut Rec, rng: &mut StdRng, deep: bool) {
     }
 }
 
+
+// ---------------------------------------------------------------------------------------------
+// size boundaries of written CFF structures
+// ---------------------------------------------------------------------------------------------
+
+const CFF_TARGETS: [usize; 6] = [254, 255, 256, 65534, 65535, 65536];
+
+/// Subsets chosen (subset sum over the byte lengths of the SOURCE objects, read by the independent
+/// reader) so that an INDEX the writer rebuilds holds exactly 254 / 255 / 256 / 65534 / 65535 / 65536
+/// bytes of object data: the sizes where the offSize of the INDEX changes. The plan counters come from
+/// the inputs; what the written table really holds is measured by the walker (`out:cff-index...`).
+fn cff_boundary_subsets(rec: &mut Rec, name: &str, prov: &impl FontTableProvider, src: &SrcFacts, plans: &[(&str, Vec<(usize, usize)>, usize)], apis: &[&str]) -> usize {
+    let mut planned = 0;
+    for (index_name, items, base) in plans {
+        for (target, picked) in cffb::subset_sum(items, *base, &CFF_TARGETS) {
+            let Some(picked) = picked else { continue };
+            planned += 1;
+            let mut ids: Vec<u16> = vec![0];
+            ids.extend(picked.iter().map(|g| *g as u16));
+            ids.sort_unstable();
+            ids.dedup();
+            for api in apis {
+                rec.bump(&format!("cffb.plan.{}.{}={}", if name.starts_with("synth") { "synth" } else { "repo" }, index_name, target));
+                do_subset(rec, &format!("{}/{}={}/{}", name, index_name, target, api), name, prov, &ids, api, src);
+            }
+        }
+    }
+    planned
+}
+
+fn record_cff_bounds(rec: &mut Rec, deep: bool) {
+    // ---- synthesized: glyph g calls global subr g-1 and local subr g-1; all three length tables are
+    // laid out so that small sets of glyphs reach every target for exactly one INDEX
+    let cs_len = [4usize, 250, 251, 252, 65000, 530, 531, 532, 60];
+    let gs_len = [100usize, 154, 155, 156, 65000, 434, 435, 436];
+    let ls_len = [120usize, 134, 135, 136, 65000, 414, 415, 416];
+    let mut glyphs = vec![cffb::glyph_cs(cs_len[0], None, None)];
+    for g in 1..cs_len.len() {
+        glyphs.push(cffb::glyph_cs(cs_len[g], Some(g - 1), Some(g - 1)));
+    }
+    let spec = cffb::CffSpec {
+        glyphs,
+        gsubrs: gs_len.iter().map(|l| cffb::subr_cs(*l)).collect(),
+        lsubrs: ls_len.iter().map(|l| cffb::subr_cs(*l)).collect(),
+        sids: (1..cs_len.len() as u16).map(|g| 33 + g).collect(),
+        strings: vec![],
+        top_pad: 0,
+    };
+    let t = cffb::build_otf(&spec);
+    let name = "synth-cffb";
+    let src = measure(&getter_of(&t));
+    let prov = MapProvider { tables: named(&t).into_iter().collect() };
+    let n = cs_len.len();
+    let plans: Vec<(&str, Vec<(usize, usize)>, usize)> = vec![
+        ("charstrings", (1..n).map(|g| (g, cs_len[g])).collect(), cs_len[0]),
+        ("gsubr", (1..n).map(|g| (g, gs_len[g - 1])).collect(), 0),
+        ("lsubr", (1..n).map(|g| (g, ls_len[g - 1])).collect(), 0),
+    ];
+    cff_boundary_subsets(rec, name, &prov, &src, &plans, &["subset", "prince:unrestricted"]);
+    let all: Vec<u16> = (0..n as u16).collect();
+    do_subset(rec, &format!("{}/all", name), name, &prov, &all, "subset", &src);
+    let tags: Vec<u32> = prov.tables.keys().cloned().collect();
+    do_whole_font(rec, &format!("{}/whole", name), name, &prov, &tags);
+
+    // ---- the Top DICT INDEX: XUID padding so that the Top DICT the writer produces walks across 255
+    for pad in (if deep { 200..=262 } else { 226..=238 }).filter(|p| *p != 1) {
+        let spec = cffb::CffSpec {
+            glyphs: vec![cffb::glyph_cs(4, None, None), cffb::glyph_cs(20, None, None), cffb::glyph_cs(33, None, None)],
+            gsubrs: vec![],
+            lsubrs: vec![],
+            sids: vec![34, 35],
+            strings: vec![],
+            top_pad: pad,
+        };
+        let t = cffb::build_otf(&spec);
+        let name = format!("synth-cffb-top{}", pad);
+        let src = measure(&getter_of(&t));
+        let prov = MapProvider { tables: named(&t).into_iter().collect() };
+        rec.bump("cffb.plan.synth.topdict-sweep");
+        do_subset(rec, &format!("{}/subset", name), &name, &prov, &[0, 2], "subset", &src);
+        do_subset(rec, &format!("{}/prince", name), &name, &prov, &[0, 1, 2], "prince:unrestricted", &src);
+    }
+
+    // ---- many glyphs: SIDs 1 .. n-1 in order (the standard strings), kept whole; 240 glyphs stay name-keyed,
+    // 300 glyphs are converted to a CID-keyed font by subset() (Font DICT INDEX, FDSelect, ROS strings)
+    for n in [200usize, 240, 300] {
+        let glyphs: Vec<Vec<u8>> = (0..n).map(|g| cffb::glyph_cs(if g == 0 { 4 } else { 7 + 3 * (g % 5) }, None, None)).collect();
+        let spec = cffb::CffSpec { glyphs, gsubrs: vec![], lsubrs: vec![], sids: (1..n as u16).collect(), strings: vec![], top_pad: 0 };
+        let t = cffb::build_otf(&spec);
+        let name = format!("synth-cffb-n{}", n);
+        let src = measure(&getter_of(&t));
+        let prov = MapProvider { tables: named(&t).into_iter().collect() };
+        let all: Vec<u16> = (0..n as u16).collect();
+        rec.bump(&format!("cffb.plan.synth.glyphs={}", n));
+        do_subset(rec, &format!("{}/all", name), &name, &prov, &all, "subset", &src);
+        do_subset(rec, &format!("{}/prince-all", name), &name, &prov, &all, "prince:unrestricted", &src);
+        do_subset(rec, &format!("{}/prince-all-cid", name), &name, &prov, &all, "prince:unrestricted:cid", &src);
+        let part: Vec<u16> = (0..n as u16).filter(|g| g % 3 != 1).collect();
+        do_subset(rec, &format!("{}/part", name), &name, &prov, &part, "subset", &src);
+    }
+}
+
+/// The same solver over a repository CFF font: charstring lengths read by the independent walker.
+fn repo_cff_bounds(rec: &mut Rec, name: &str, prov: &impl FontTableProvider, src: &SrcFacts) -> bool {
+    let Ok(Some(cff)) = prov.table_data(tag::CFF) else { return false };
+    let w = cffb::walk_cff(&cff);
+    if w.facts["walked"] != json!(true) {
+        return false;
+    }
+    let Some(cs) = w.indexes.iter().find(|i| i.name == "charstrings") else { return false };
+    if cs.count < 3 {
+        return false;
+    }
+    let len = |g: usize| cs.offs[g + 1] - cs.offs[g];
+    let items: Vec<(usize, usize)> = (1..cs.count.min(400)).map(|g| (g, len(g))).collect();
+    let plans = vec![("charstrings", items, len(0))];
+    cff_boundary_subsets(rec, name, prov, src, &plans, &["subset"]) > 0
+}
+
 /// Priority of a repository font for a small sample (as before the survey existed).
 fn old_priority(p: &str) -> u8 {
     if p.contains("/aots/") {
@@ -822,6 +988,7 @@ fn record(seed: u64, max_fonts: usize, out: &str, all_woff2: bool) {
     let mut rng = StdRng::seed_from_u64(seed);
     let mut rec = Rec::new(out);
     record_synth(&mut rec, &mut rng, all_woff2);
+    record_cff_bounds(&mut rec, all_woff2);
 
     // ---- repository fonts: survey, then choose by measured features ---------------------------
     let mut paths = repo_fonts();
@@ -880,7 +1047,7 @@ fn record(seed: u64, max_fonts: usize, out: &str, all_woff2: bool) {
                 hm = tr(tag::HMTX);
                 gl = tr(tag::LOCA) || tr(tag::GLYF);
             }
-            let (mut x, _) = cross_of(&get, (hm, gl, gl), false);
+            let (mut x, _) = cross_of(&get, (hm, gl, gl), false, "woff2", None);
             let prov = MapProvider { tables: tm.clone() };
             x["reload"] = reload_value(guarded(|| reload_provider(prov.clone())));
             rec.tables(&format!("{}/woff2", name), "woff2", json!({"font": name, "glyf_transformed": gl, "hmtx_transformed": hm}), x);
@@ -970,6 +1137,25 @@ fn record(seed: u64, max_fonts: usize, out: &str, all_woff2: bool) {
             }
         }
     }
+    // ---- repository CFF fonts: subsets whose CharStrings INDEX lands on the offSize boundaries ------
+    {
+        let mut cffs: Vec<&Surveyed> =
+            surveyed.iter().filter(|s| s.facts.kind == "cff" && !s.path.ends_with(".woff2") && !s.path.contains("/aots/")).collect();
+        cffs.sort_by_key(|s| std::fs::metadata(&s.path).map(|m| m.len()).unwrap_or(u64::MAX));
+        let mut done = 0;
+        for s in cffs {
+            if !all_woff2 && done >= 4 {
+                break;
+            }
+            let Ok(data) = std::fs::read(&s.path) else { continue };
+            let Ok(fd) = ReadScope::new(&data).read::<FontData<'_>>() else { continue };
+            let Ok(provider) = fd.table_provider(0) else { continue };
+            let name = s.path.rsplit('/').next().unwrap().to_string();
+            if repo_cff_bounds(&mut rec, &format!("{}/cffb", name), &provider, &s.facts) {
+                done += 1;
+            }
+        }
+    }
     // ---- repository TrueType fonts through the harness's WOFF2 encoder -------------------------
     // chosen by the MEASURED size of the glyf table allsorts rebuilds: one short-loca source that
     // has to be upgraded to long, one that stays short (all of them with `all`).
@@ -1035,6 +1221,29 @@ fn survey() {
     }
 }
 
+/// Reproduction of the finding "a predefined charset is chosen for more glyphs than it names":
+/// a name-keyed CFF font with 240 glyphs whose SIDs are 1, 2, 3, ... kept whole.
+fn probe_isoadobe() {
+    let n = 240usize;
+    let glyphs: Vec<Vec<u8>> = (0..n).map(|g| cffb::glyph_cs(if g == 0 { 4 } else { 7 + 3 * (g % 5) }, None, None)).collect();
+    let spec = cffb::CffSpec { glyphs, gsubrs: vec![], lsubrs: vec![], sids: (1..n as u16).collect(), strings: vec![], top_pad: 0 };
+    let t = cffb::build_otf(&spec);
+    let prov = MapProvider { tables: named(&t).into_iter().collect() };
+    let all: Vec<u16> = (0..n as u16).collect();
+    let src_cff = prov.tables[&tag::CFF].clone();
+    let src = ReadScope::new(&src_cff).read::<CFF<'_>>().unwrap();
+    println!("source: id_for_glyph(228) = {:?}, (229) = {:?}, (239) = {:?}", src.fonts[0].charset.id_for_glyph(228), src.fonts[0].charset.id_for_glyph(229), src.fonts[0].charset.id_for_glyph(239));
+    let out = subset(&prov, &all).expect("subset");
+    let fd = ReadScope::new(&out).read::<FontData<'_>>().unwrap();
+    let p2 = fd.table_provider(0).unwrap();
+    let d = p2.read_table_data(tag::CFF).unwrap();
+    let cff = ReadScope::new(&d).read::<CFF<'_>>().unwrap();
+    println!("subset (all 240 glyphs) charset: {}", match &cff.fonts[0].charset { allsorts::cff::Charset::ISOAdobe => "ISOAdobe", allsorts::cff::Charset::Custom(_) => "custom", _ => "other" });
+    println!("subset: id_for_glyph(228) = {:?}, (229) = {:?}, (239) = {:?}", cff.fonts[0].charset.id_for_glyph(228), cff.fonts[0].charset.id_for_glyph(229), cff.fonts[0].charset.id_for_glyph(239));
+    println!("subset of the subset: {:?}", subset(&p2, &[0, 1, 239]).map(|b| b.len()));
+    println!("subset of the source:  {:?}", subset(&prov, &[0, 1, 239]).map(|b| b.len()));
+}
+
 fn main() {
     let args: Vec<String> = std::env::args().collect();
     match args.get(1).map(|s| s.as_str()) {
@@ -1046,6 +1255,7 @@ fn main() {
             args.get(5).map(|s| s == "all").unwrap_or(false),
         ),
         Some("survey") => survey(),
+        Some("probe-isoadobe") => probe_isoadobe(),
         _ => {
             eprintln!("usage: c09_written replay <cases> <trace> | record <seed> <max_fonts> <trace> [all] | survey");
             std::process::exit(2);
